@@ -21,6 +21,15 @@ SCORES = (-3.0, -1.5)
 
 def alphabet(which, data):
     fs = frozenset
+    if which == 2:
+        # many distinct trees over 4 data points (report tables with more than 16 rows), each also in a relabelled copy
+        states = oracle.all_states(4, outliers=True)
+        out = []
+        for k in range(0, len(states), 15):
+            t = oracle.build(states[k], data, reverse_siblings=bool(k % 2))
+            t.relabel_nodes()
+            out.append(("T%d" % k, t, states[k]))
+        return out
 
     def st(pairs, outl=()):
         return (fs((fs(b), fs(p) if p is not None else None) for b, p in pairs), fs(outl))
@@ -65,9 +74,9 @@ def case(item):
     which, seqs = item
     from phyclone.process_trace import write_map_results, write_topology_report
 
-    data = traces.named_data(3, grid=3, outlier_prob=0.2)
+    data = traces.named_data(4 if which == 2 else 3, grid=3, outlier_prob=0.2)
     alpha = alphabet(which, data)
-    syms = [(t, s) for t in range(3) for s in range(2)]
+    syms = [(t, s) for t in range(len(alpha)) for s in range(2)]
     out = {"item": (which, len(seqs)), "problems": [], "n": 0, "distinct": 0}
     d = traces.scratch("c11_")
     try:
@@ -208,6 +217,12 @@ def main(tier, seed):
         cs = cases if (tier == "thorough" or which == 0) else cases[::3]
         for i in range(0, len(cs), chunk):
             items.append((which, cs[i:i + chunk]))
+    # long traces with many distinct topologies
+    nsym = 2 * len(alphabet(2, traces.named_data(4, grid=3, outlier_prob=0.2)))
+    for k in range(1, 7 if tier == "quick" else 25):
+        seq = tuple((7 * i * k + 3 * i + k) % nsym for i in range(30))
+        for parts, order in (((30,), (0,)), ((10, 10, 10), (0, 1, 2)), ((10, 10, 10), (2, 0, 1)), ((3, 20, 7), (1, 2, 0))):
+            items.append((2, [(seq, parts, order)]))
     for r in pool_imap(case, items, chunksize=1):
         chk.transitions += r["n"] * 5
         chk.traces_validated += r["n"]
